@@ -81,6 +81,48 @@ func c01() []*Ob {
 					}
 				}
 			}},
+		{Prop: "C01", ID: "C01.9", Engine: "LOCK", Floor: 2,
+			Desc: "one bulk, one hold: ActiveWriter.Write performs the docs write and the meta write under a single hold of the writer's mutex, so docs blocks and meta blocks are appended in the same order (Replay derives docs offsets by summing Ext1 in meta order; a crash between two bulks' meta writes must not leave an orphan docs block in the middle of the file)",
+			Check: func(c *Ctx) {
+				fn := c.Fn(awWrite)
+				if fn == nil {
+					return
+				}
+				li := Locksets(fn, nil)
+				top := func(l Lifted) ssa.Instruction {
+					if len(l.Via) > 0 {
+						return l.Via[0].(ssa.Instruction)
+					}
+					return l.In
+				}
+				dw := c.P.FindLifted(fn, CallSel(docsWrite))
+				mw := c.P.FindLifted(fn, CallSel(metaWrite))
+				if len(dw) == 0 || len(mw) == 0 {
+					c.Undecided("lock:"+awWrite+":writes", fn.Pos(), "cannot find the docs and meta writes of ActiveWriter.Write")
+					return
+				}
+				for _, l := range append(append([]Lifted{}, dw...), mw...) {
+					at := top(l)
+					if li.Held(at, "a.mu") == 2 {
+						c.Site(at.Pos(), "file write under the writer mutex")
+					} else {
+						c.Violation("lock:"+awWrite+":write-outside-hold", at.Pos(), "ActiveWriter.Write appends to a fraction file without holding the writer mutex (lockset %s): two concurrent bulks can append their docs blocks in one order and their meta blocks in the other, and replay then attributes documents to the wrong ids", li.HeldSet(at))
+					}
+				}
+				for _, u := range CallsIn(fn, OnFieldAny(Callee("(*sync.Mutex).Unlock"), "mu")) {
+					if _, isDefer := u.(*ssa.Defer); isDefer {
+						continue
+					}
+					ui := u.(ssa.Instruction)
+					for _, d := range dw {
+						for _, m := range mw {
+							if Dominates(top(d), ui) && Dominates(ui, top(m)) {
+								c.Violation("lock:"+awWrite+":two-holds", ui.Pos(), "the writer mutex is released between the docs write and the meta write of one bulk")
+							}
+						}
+					}
+				}
+			}},
 		{Prop: "C01", ID: "C01.2", Engine: "ORDER+ACK+DOM", Floor: 4,
 			Desc: "FileWriter.Write: WriteAt precedes enqueueing the sync request, which precedes the wait; the only success return that skips the wait is under skipSync; otherwise the returned error is the value received from the sync loop",
 			Check: func(c *Ctx) {
